@@ -260,15 +260,23 @@ void exec_stream(const J& plan) {
     if (++steps > 50000000) { fail("C09", "simulation-step-budget", "step budget exceeded"); break; }
   }
   g_run.sim_time = now;
-  // no state between calls: the same windows, decoded again now that other connections' traffic has gone through the decoder
-  for (size_t i = X.samples.size(); i-- > 0 && !failed();) {
-    WindowSample& ws = X.samples[i];
-    uint8_t* w2 = (uint8_t*)malloc(ws.bytes.size()); if (!ws.bytes.empty()) memcpy(w2, ws.bytes.data(), ws.bytes.size());
-    Recorder r2; r2.begin(w2, ws.bytes.size());
-    struct cbor_decoder_result res2 = cbor_stream_decode(w2, ws.bytes.size(), recorder_callbacks(), &r2);
-    std::string why; bool same = (int)res2.status == ws.status && res2.read == ws.read && (ws.status != CBOR_DECODER_NEDATA || res2.required == ws.required) && (r2.evs.size() == 1) == ws.has_ev && (!ws.has_ev || event_matches(r2.evs[0], ws.ev, why));
-    if (!same) fail("C08,C09", "decoder-keeps-state-between-calls", fmt("a %zu-byte window [%s] decoded earlier in the run gives a different result when decoded again at the end (status %d/%d, read %zu/%zu) %s", ws.bytes.size(), to_hex(ws.bytes.data(), std::min<size_t>(ws.bytes.size(), 16)).c_str(), ws.status, (int)res2.status, ws.read, res2.read, why.c_str()));
-    free(w2); stat_add("windows_decoded_again");
+  // no state between calls: the same windows decoded again, all at ONE address (a client with a fixed receive buffer), first in the
+  // order they were seen, then by increasing size - whatever an earlier call may have remembered about "this buffer" is stale by then
+  {
+    static uint8_t* fixed = (uint8_t*)malloc(4096 + 16);
+    std::vector<size_t> order; for (size_t i = 0; i < X.samples.size(); i++) order.push_back(i);
+    for (int pass = 0; pass < 2 && !failed(); pass++) {
+      if (pass == 1) std::stable_sort(order.begin(), order.end(), [&](size_t a, size_t b) { return X.samples[a].bytes.size() < X.samples[b].bytes.size(); });
+      for (size_t oi = 0; oi < order.size() && !failed(); oi++) {
+        WindowSample& ws = X.samples[order[oi]];
+        if (!ws.bytes.empty()) memcpy(fixed, ws.bytes.data(), ws.bytes.size());
+        Recorder r2; r2.begin(fixed, ws.bytes.size());
+        struct cbor_decoder_result res2 = cbor_stream_decode(fixed, ws.bytes.size(), recorder_callbacks(), &r2);
+        std::string why; bool same = (int)res2.status == ws.status && res2.read == ws.read && (ws.status != CBOR_DECODER_NEDATA || res2.required == ws.required) && (r2.evs.size() == 1) == ws.has_ev && (!ws.has_ev || event_matches(r2.evs[0], ws.ev, why));
+        if (!same) fail("C08,C09", "decoder-keeps-state-between-calls", fmt("a %zu-byte window [%s] decoded earlier in the run gives a different result when decoded again later (status %d/%d, read %zu/%zu, required %zu/%zu) %s", ws.bytes.size(), to_hex(ws.bytes.data(), std::min<size_t>(ws.bytes.size(), 16)).c_str(), ws.status, (int)res2.status, ws.read, res2.read, ws.required, res2.required, why.c_str()));
+        stat_add("windows_decoded_again");
+      }
+    }
   }
   // history oracle (C09): what a client must have received for the delivered prefix
   uint64_t total_frag = 0, total_ned = 0; bool multi = false;
